@@ -352,6 +352,58 @@ func (fr *Frame) guardedAccess(st *State, n ast.Node, p Val, base types.Type, f 
 	x.u.oblige("monitor:"+short+":guarded-access:"+what+":"+f.Name(), "monitor", what+" of "+f.Name()+" while "+short+" is held", fr.pos(n.Pos()), st.pc, goal)
 }
 
+// guardedMapAccess: the contents of a map whose type is listed under a monitor's modifies are
+// read, ranged over or written only while the unit holds that monitor (of some owner: map
+// contents are keyed by type, not by owner), or when the map was made by the unit itself.
+func (fr *Frame) guardedMapAccess(st *State, n ast.Node, m Val, what string) {
+	x := fr.x
+	if len(x.eng.monitors) == 0 || m.Ty == nil {
+		return
+	}
+	mt, ok := m.Ty.Underlying().(*types.Map)
+	if !ok {
+		return
+	}
+	if x.guardedMaps == nil {
+		x.guardedMaps = map[string]string{}
+		var mks []string
+		for mk := range x.eng.monitors {
+			mks = append(mks, mk)
+		}
+		sort.Strings(mks)
+		for _, mk := range mks {
+			mon := x.eng.monitors[mk]
+			if x.eng.pkgs[mon.Pkg] == nil {
+				continue
+			}
+			for _, pl := range mon.Modifies {
+				if !strings.HasPrefix(pl, "map[") {
+					continue
+				}
+				func() {
+					defer func() { recover() }()
+					for _, k := range x.placeKeys(x.eng.pkgs[mon.Pkg], pl) {
+						x.guardedMaps[k] = mk
+					}
+				}()
+			}
+		}
+	}
+	dom, _, _, _ := x.u.mapKeys(mt)
+	mk, ok := x.guardedMaps[dom]
+	if !ok {
+		return
+	}
+	short := strings.TrimPrefix(mk, "mutex:")
+	cnt := "0"
+	if g, ok := st.ghost["mcnt:"+mk]; ok {
+		cnt = g.T
+	}
+	x.used("monitor " + short + ": contents of guarded maps are accessed only while the mutex is held (or on maps the unit made itself)")
+	goal := fmt.Sprintf("(or (> %s 0) (>= %s %s))", cnt, m.T, x.next0)
+	x.u.oblige("monitor:"+short+":guarded-access:"+what+":"+shortPkg(types.TypeString(mt, nil)), "monitor", what+" of a guarded map while "+short+" is held", fr.pos(n.Pos()), st.pc, goal)
+}
+
 func (fr *Frame) monitorRelease(st *State, c *ast.CallExpr, key string, owner Val, mon *Contract) {
 	x := fr.x
 	short := strings.TrimPrefix(key, "mutex:")
@@ -446,6 +498,14 @@ func init() {
 				fr.monitorRelease(st, c, key, owner, mon)
 			}
 			x.heapStore(st, key, owner.T, fmt.Sprintf("(+ %s %d)", cur, delta))
+			if x.eng.monitors[key] != nil {
+				// how many holds of this monitor (any owner) the unit has right now
+				cnt := "0"
+				if g, ok := st.ghost["mcnt:"+key]; ok {
+					cnt = g.T
+				}
+				st.ghost["mcnt:"+key] = x.bind(Val{T: fmt.Sprintf("(+ %s %d)", cnt, delta), S: "Int"}, "mcnt")
+			}
 			if mon := x.eng.monitors[key]; mon != nil && delta > 0 {
 				fr.monitorAcquire(st, c, key, owner, mon)
 			}
